@@ -606,7 +606,11 @@ fn random_op(rng: &mut Rng, depth: usize, ntab: usize, top: bool) -> Op {
             let ty = *rng.pick(&ty_s);
             Op::ReadS(ty, width(rng, ty))
         }
-        8 => Op::Skip(rng.below(40) as u32),
+        8 => match rng.below(12) {
+            0 => Op::Skip(*rng.pick(&[4088u32 * 8, 4096 * 8, 4096 * 8 + 1, 8192 * 8 - 3, 32767, 32768, 65535, 65536]) + rng.below(9) as u32),
+            1 => Op::Skip(rng.below(600_000) as u32),
+            _ => Op::Skip(rng.below(40) as u32),
+        },
         9 => Op::ReadU8,
         10 => Op::StartCode(false),
         11 => Op::StartCode(rng.chance(1, 3)),
@@ -654,7 +658,13 @@ fn random_op(rng: &mut Rng, depth: usize, ntab: usize, top: bool) -> Op {
 }
 
 fn random_source(rng: &mut Rng) -> Vec<u8> {
-    let n = rng.below(65) as usize;
+    // mostly short sources; occasionally long ones that cross internal buffer-size boundaries
+    let n = match rng.below(60) {
+        0 => 4000 + rng.below(300) as usize,
+        1 => 8100 + rng.below(200) as usize,
+        2 => 1 + rng.below(70000) as usize,
+        _ => rng.below(65) as usize,
+    };
     let style = rng.below(4);
     (0..n)
         .map(|_| match style {
